@@ -280,9 +280,25 @@ def add_user(w, kind, base, kdf, password):
         import tempfile
         fd, out_path = tempfile.mkstemp(prefix='key_', dir=str(w.scratch.root))
         os.close(fd)
-    with R.quiet() as (so, _):
-        res = R.run(repo.add_key(password=password, settings={'encryption': {'kdf': dict(kdf)}}, shared=(kind == 'shared'), key_output_path=out_path))
-    key = bytes(repo.serialize(res.new_key))
+    if cmd_clone:
+        # through the command's own dispatch (`replicat.__main__._cmd_handler`, action add-key, --clone): whatever the command passes to the
+        # library for a clone is what runs; the key comes back the way the command delivers it (--key-output-file)
+        import argparse
+        import tempfile
+        import replicat.__main__ as M
+        how = 'file'
+        if out_path is None:
+            fd, out_path = tempfile.mkstemp(prefix='key_', dir=str(w.scratch.root))
+            os.close(fd)
+        args = argparse.Namespace(action='add-key', shared=False, clone=True, password=b.password, new_password=None, key=b.key, key_output_file=out_path,
+                                  concurrent=2, quiet=True, cache_directory=None)
+        with R.quiet() as (so, _):
+            R.run(M._cmd_handler(lambda connection_string: w.backend, '', args, {'encryption': {'kdf': dict(kdf)}}))
+        key = b''
+    else:
+        with R.quiet() as (so, _):
+            res = R.run(repo.add_key(password=password, settings={'encryption': {'kdf': dict(kdf)}}, shared=(kind == 'shared'), key_output_path=out_path))
+        key = bytes(repo.serialize(res.new_key))
     w.key_delivery = getattr(w, 'key_delivery', [])
     if how == 'stdout':
         text = so.getvalue()
